@@ -50,7 +50,7 @@ theorem dim_noErr (d : DimDesc α) : NoErr (validateDim d) ↔ dimBreaches d = [
   | set n =>
     simp [validateSet, when_eq_nil]
     grind
-  | frame n => simp
+  | frame n cu => simp
 
 theorem dim_allId (d : DimDesc α) : AllId dimId (validateDim d) := by
   unfold validateDim
@@ -62,7 +62,7 @@ theorem dim_noWarn (d : DimDesc α) : NoWarn (validateDim d) ↔ dimSoft d = [] 
   | range ticks unit => simp [validateRange]
   | sampled si off unit => simp [validateSampled, when_eq_nil, isSet]
   | set n => simp [validateSet]
-  | frame n => simp
+  | frame n cu => simp
 
 
 -- ---- features and properties ------------------------------------------------------------------------------------
